@@ -14,7 +14,7 @@ def run(prop, tier, seed, replay):
     res = common.correspondence(v, st, prop, "c01", "cdelta", tier, seed, replay, canary_kind="cdelta", extra=extra,
                                 model_desc="Model/Delta.v (signature, compute_delta_fast, patch)",
                                 impl_desc="Signature::generate / CopiaSync::delta / patch")
-    common.verdict(v, st, prop, res)
+    common.verdict(v, st, prop, res, with_previous=True)   # the sync engine object is shared by consecutive cases
     common.proof_coverage(v, st, prop, TB)
     v.coverage.update(dict(
         evaluations=res["evals"], distinct_nontrivial=res["distinct"],
